@@ -16,8 +16,14 @@ func VerifReset() {
 	if VerifReplayCapacity > 0 {
 		c = VerifReplayCapacity
 	}
+	// keep the structure the package defines: one cache per transport, or one shared by both
+	shared := streamReplayCache == packetReplayCache
 	streamReplayCache = replay.NewCache(c, cipher.KeyRefreshInterval*3)
-	packetReplayCache = replay.NewCache(c, cipher.KeyRefreshInterval*3)
+	if shared {
+		packetReplayCache = streamReplayCache
+	} else {
+		packetReplayCache = replay.NewCache(c, cipher.KeyRefreshInterval*3)
+	}
 }
 
 // VerifPacketReplayCache gives harnesses read access to the datagram replay cache.
